@@ -232,6 +232,7 @@ func runC06(c *Ctx) {
 	rec := c.Rec
 	inputs := c06inputs(c)
 	rec.Extra("inputs", len(inputs))
+	rec.MaxSamples = 14
 	fam := map[string]int{}
 	for _, in := range inputs {
 		fam[in.family]++
@@ -339,7 +340,13 @@ func runC06(c *Ctx) {
 	if total.Processed < int64(len(inputs)) && confirmed.Load() == 0 {
 		rec.Inconclusive(fmt.Sprintf("only %d of %d inputs were processed", total.Processed, len(inputs)))
 	}
-	rec.Sample("inputs", map[string]any{"regression": "a20102206161", "families": fam})
+	seenFam := map[string]bool{}
+	for _, in := range inputs {
+		if !seenFam[in.family] && len(in.data) > 0 {
+			seenFam[in.family] = true
+			rec.Sample("input/"+in.family, map[string]any{"family": in.family, "input": hexs(in.data)})
+		}
+	}
 }
 
 func truncate(b []byte, n int) []byte {
